@@ -8,6 +8,8 @@
 (*            the file, and ranges are pairwise disjoint                                            *)
 (*   Parse    accepted; structure token equals the token of the encoded structure                   *)
 (*   Levels   every parsed level decodes to Dim(i) (for JPEG: the dimensions in the JPEG stream)     *)
+(*   AlphaLevels  palettised, alpha depth 1/4/8: alpha plane of every level (level 0 exact, the        *)
+(*            scaled-down levels within a resampling-tolerant band of the scaled source alpha)        *)
 (*   Decode   raw BGRA: decoded level 0 = source pixels; palettised: every colour is a palette      *)
 (*            entry and every (source alpha, decoded alpha) pair satisfies QuantOk(bits)            *)
 (* D-conjuncts (DRIFT): levels laid out back to back from DataStart, file ends after the last one,   *)
@@ -52,12 +54,35 @@ DecodeP(e) == IF e.res # "ok" THEN <<FALSE, "decode-failed">>
 LevelsP(e) == IF e.res # "ok" THEN <<FALSE, "level-decode-failed">>
               ELSE <<e.dims = Chain(tcase.w, tcase.h, tcase.mips), "level-dims">>
 
+\* palettised encodings: the alpha plane of EVERY level.  Level 0 is exact (QuantOk on every pair, also in
+\* Decode).  For the scaled-down levels the expected alpha comes from scaling the source the documented way;
+\* the verdict is tolerant of the resampling details: decoded alpha stays inside the (quantisation-widened)
+\* range of the expected alpha and its mean is close (depth 4 / 8); at depth 1 it is 0 / 255, all 0 where the
+\* expected plane is all 0, and mostly opaque where the expected plane is almost nowhere 0.
+AbsLe(ta, tb, tt) == ta - tb <= tt /\ tb - ta <= tt
+AlphaLevelOk(tlv) ==
+    /\ tlv.res = "ok"
+    /\ IF tlv.lvl = 0 THEN \A ti \in 1..Len(tlv.pairs) : QuantOk(tcase.alpha, tlv.pairs[ti][1], tlv.pairs[ti][2])
+       ELSE IF tcase.alpha = 1
+       THEN /\ \A ti \in 1..Len(tlv.pairs) : tlv.pairs[ti][2] \in {0, 255}
+            /\ (tlv.emax = 0 => tlv.dmax = 0)
+            /\ (10 * tlv.epos >= 9 * tlv.n => tlv.dmean >= 128)
+       ELSE /\ tlv.dmin + 17 >= tlv.emin /\ tlv.dmax <= tlv.emax + 17
+            /\ AbsLe(tlv.dmean, tlv.emean, 40)
+AlphaLevelsP(e) == LET tbad == {tk \in 1..Len(e.levels) : ~AlphaLevelOk(e.levels[tk])} IN
+                   IF Len(e.levels) # N THEN <<FALSE, "mip-chain">>
+                   ELSE <<tbad = {}, IF tbad = {} THEN "" ELSE IF 1 \in tbad THEN "alpha-quant" ELSE "alpha-level">>
+\* D: exact agreement with the documented scaling on every level
+AlphaLevelsD(e) == <<\A tk \in 1..Len(e.levels) : \A ti \in 1..Len(e.levels[tk].pairs) :
+                        QuantOk(tcase.alpha, e.levels[tk].pairs[ti][1], e.levels[tk].pairs[ti][2]), "alpha-level-exact">>
+
 PofEvent(e) == CASE e.ev = "Convert" -> ConvertP(e)
                  [] e.ev = "Encode"  -> EncodeP(e)
                  [] e.ev = "Header"  -> HeaderP(e)
                  [] e.ev = "Parse"   -> ParseP(e)
                  [] e.ev = "Decode"  -> DecodeP(e)
                  [] e.ev = "Levels"  -> LevelsP(e)
+                 [] e.ev = "AlphaLevels" -> AlphaLevelsP(e)
                  [] e.ev = "Reset"   -> <<TargetOk(e.ver, e.enc) /\ AlphaOk(e.enc, e.alpha), "bad-case">>
                  [] OTHER -> Assert(FALSE, <<"unknown event", e.ev>>)
 DofEvent(e) ==
@@ -69,6 +94,7 @@ DofEvent(e) ==
                    ELSE IF tenc.len # tstart + BSum(Prefix(e.sizes, tk)) THEN <<FALSE, "file-length">>
                    ELSE IF tcase.enc = "jpeg" /\ e.jh > 624 THEN <<FALSE, "jpeg-header-longer-than-624">>
                    ELSE <<(e.hasMips # 0) <=> tcase.mips, "has-mipmaps-flag">>
+      [] e.ev = "AlphaLevels" -> AlphaLevelsD(e)
       [] e.ev = "Decode" -> <<e.res # "ok" \/ tcase.enc # "raw1" \/ tcase.alpha # 4 \/ \A ti \in 1..Len(e.pairs) : e.pairs[ti][2] = Quant4(e.pairs[ti][1]), "4bit-rounding">>
       [] OTHER -> <<TRUE, "">>
 
